@@ -224,7 +224,7 @@ CHECKS = {
         level_text="Proved in Lean 4 by induction over EVERY history (new blocks, reorgs at any depth above the finalized block with shorter or longer new forks, successive reorgs, finality moving at any time, two subscribers progressing at any relative speed, detection passes, restarts, a stop of the node while a syncer is rewinding — at any moment, any length): "
                    "C06_tracked_or_final — every block a syncer has processed is still tracked by the detector with the hash it was processed with, or was delivered as finalized and is on the chain; C06_detected — after a detection pass that could fetch the headers it needed no block that the chain has replaced remains in the syncer's store (it was rewound to at or before the first replaced block it had processed), and the rewind point is exactly the first tracked block whose hash differs; "
                    "C06_no_spurious_rewind — if nothing it processed was replaced, the pass leaves the store alone; C06_stopped_during_reorg — a stop while a syncer rewinds keeps the stale blocks tracked, so the next pass after the restart rewinds again; C06_restart; C06_converges — once the chain has stopped changing, one pass plus syncing to the tip leaves the store equal to the canonical chain (blocks 1…tip, each the chain's block). "
-                   "PARTIAL: the schedule is sequential (an operation completes before the next starts); the window between the driver's acknowledgement and the detector's removal of the tracked range (F5) is outside the model. "
+                   "PARTIAL: the schedule is sequential (an operation completes before the next starts); the window between the driver's acknowledgement and the detector's removal of the tracked range is outside the model — on the real code that window loses a tracked block (KNOWN-FINDING F5, replayed on every run by the directed `race` op: the detector's database is kept busy for 150 ms after the rewind). "
                    "Tie: reorgsync scenario — the real ReorgDetector (SQLite tracked blocks, one pass per op via the verif hook, real reload at restart), two real EVMDrivers in their own goroutines (real select loop, handleNewBlock, handleReorg) over two real bridge processors, a scripted downloader that hands out the block the chain has at that moment, a scripted chain client; stores and tracked lists after every op are compared with the model; monitors: rewound iff something processed was replaced, to at or before the first replaced block; no replaced block left after a pass; convergence to the chain at the end of every world.",
         level_note="Trusted: Lean kernel; model/code correspondence (generator-bounded); the downloader is scripted (the real EVMDownloader is C05's subject); sequential schedule; a detection pass that hits the reorg_event key within the same wall-clock second is retried once by the harness, as the periodic check would at its next tick.",
         rule="seeded worlds (10 quick / 60 thorough) of 40/80 ops: 25% new blocks, 30% a subscriber syncs 1-3 blocks, 11% detection pass, 4% detection pass during which the node is stopped while a syncer rewinds (then restart), 12% reorg at a random depth above the finalized block with a new fork usually at least as long (15% shorter), 10% finality moves, 8% restart; at the end the chain grows by 4 blocks and convergence is required; distinct non-trivial = distinct (reorg depth, new fork length) classes",
